@@ -30,7 +30,7 @@ REAL = ["rpyc.core.brine", "rpyc.core.channel.Channel", "rpyc.core.protocol.Conn
 STUB = ["the other party in directions (a)/(b) is the independent reference peer", "sockets/time/locks (simulator)"]
 ASSUMPTIONS = ["ref/codec.py is the published format (tags 0x00-0x1b, immediate ints -0x30..0x9f as 0x20..0xef, '!LB' header, newline trailer, "
                "zlib level 1 above 3000 bytes, kinds 1-3, labels 1-4, handlers 1-20)"]
-PROBES = ["c19:compressed-frame", "c19:long-tag", "c19:ref-client", "c19:ref-server", "c19:real-real"]
+PROBES = ["c19:compressed-frame", "c19:long-tag", "c19:ref-client", "c19:ref-server", "c19:real-real", "c19:boxing-label"]
 
 
 def check_stream(sim, raw, compress_enabled, who, allow_cut=False):
@@ -140,6 +140,12 @@ class Target(object):
     def exposed_big(self, n):
         return b"q" * n
 
+    def exposed_make(self, what):
+        import time as _t
+        return {"namedtuple": c03.Point(3, 4), "struct_time": _t.gmtime(0), "tuple-sub": c03.MyTuple((1, 2)), "int-sub": c03.MyInt(5),
+                "str-sub": c03.MyStr("s"), "fset-sub": c03.MyFset([1]), "enum": c03.Color.RED, "plain": (1, (2, "x"), None),
+                "mixed": (1, [2], (3, {4: 5})), "list": [1], "empty-tuple": ()}[what]
+
     def __str__(self):
         return "target-str"
 
@@ -230,7 +236,7 @@ def run_one(choices, params):
                 raise core.Violation("meaning-differs", "%s: expected value %r, got %r" % (what, want, r[1]))
         for _ in range(8 + w.draw(25)):
             op = w.pick(("callattr", "callattr", "getattr", "call", "str", "repr", "hash", "dir", "cmp", "buffiter", "inspect", "setattr",
-                         "big", "ctx", "del"))
+                         "big", "ctx", "del", "boxing"))
             if op == "callattr":
                 args = tuple(values(w.draw(4)))
                 kwargs = tuple(sorted(("k%d" % i, v) for i, v in enumerate(values(w.draw(3)))))
@@ -290,6 +296,34 @@ def run_one(choices, params):
                 expect_value(ask(RC.H_CTXEXIT, (T, (root, (V, None))), "ctxexit"), False, "ctxexit")
                 if svc.items[-2:] != ["enter", "exit"]:
                     raise core.Violation("meaning-differs", "context manager calls: %r" % (svc.items[-4:],))
+            elif op == "boxing":
+                # published boxing rule: only an object whose type is exactly tuple travels as LABEL_TUPLE (a plain value when all of it
+                # is serializable); instances of subclasses of value types travel by reference (label 4 + 3-item id pack)
+                what = w.pick(("namedtuple", "struct_time", "tuple-sub", "int-sub", "str-sub", "fset-sub", "enum", "plain", "mixed", "list",
+                               "empty-tuple"))
+                r = ask(RC.H_CALLATTR, (T, (root, (V, "make"), (V, (what,)), (V, ()))), "make " + what)
+                sim.count("c19:boxing-label")
+
+                def is_ref(bx):
+                    return (bx[0] == RC.LABEL_REMOTE_REF and type(bx[1]) is tuple and len(bx[1]) == 3 and type(bx[1][0]) is str
+                            and type(bx[1][1]) is int and type(bx[1][2]) is int)
+                if r[0] != RC.MSG_REPLY:
+                    raise core.Violation("reference-request-rejected", "make(%s) answered kind %r" % (what, r[0]))
+                bx = r[1]
+                if what == "plain":
+                    ok = bx[0] == V and RC.same(bx[1], (1, (2, "x"), None))
+                elif what == "empty-tuple":
+                    ok = bx[0] == V and bx[1] == ()
+                elif what == "mixed":
+                    ok = (bx[0] == T and len(bx[1]) == 3 and bx[1][0] == (V, 1) and is_ref(bx[1][1]) and bx[1][2][0] == T
+                          and bx[1][2][1][0] == (V, 3) and is_ref(bx[1][2][1][1]))
+                else:
+                    ok = is_ref(bx)
+                if not ok:
+                    raise core.Violation("label-differs/boxing", "real server boxed %s as %r" % (what, str(bx)[:200]))
+                refs = [bx] if is_ref(bx) else ([bx[1][1], bx[1][2][1][1]] if what == "mixed" and ok else [])
+                for rb in refs:
+                    ask(RC.H_DEL, (T, ((RC.LABEL_LOCAL_REF, rb[1]), (V, 1))), "del")
             elif op == "del":
                 r = ask(RC.H_GETATTR, (T, (root, (V, "big"))), "getattr big")
                 ask(RC.H_DEL, (T, ((RC.LABEL_LOCAL_REF, r[1][1]), (V, 1))), "del")
